@@ -37,6 +37,17 @@ def _batch_independent(query, B, out, sv):
                   f"the decision for target {i if i >= 0 else 0} changes from {bool(out[i if i >= 0 else 0])} to {bool(aug[i if i >= 0 else B.shape[0] + 1])} when a bright target is added to the call")
 
 
+def _whole_number_twin(query, B):
+    """whole-number targets (counts) handed over as an int64 array get the answers of the same numbers as floats"""
+    whole = np.round(np.asarray(B, dtype=float))
+    if not (np.all(np.isfinite(whole)) and np.all(np.abs(whole) < 2 ** 52)):
+        return
+    with calling("membership of whole-number targets (int64 / float64)"):
+        as_int, as_float = np.asarray(query(whole.astype(np.int64))), np.asarray(query(whole.copy()))
+    check(np.array_equal(as_int, as_float), "membership:integer-targets-differ",
+          f"targets {whole[:3].tolist()}.. as an int64 array: {as_int.tolist()}, as floats: {as_float.tolist()}")
+
+
 def _call_membership(sv: Sys, B, entry, relative=True):
     """returns the boolean decisions; entry in {'estimator', 'function'}.  The query is made twice, first on the first row alone:
     it must not change the caller's arrays or the estimator's registered state, so the second answer is the one of a fresh call."""
@@ -50,6 +61,7 @@ def _call_membership(sv: Sys, B, entry, relative=True):
         check(bool(first[0]) == bool(out[0]), "membership:second-query-differs", "the same target gets another answer in a second query on the same estimator")
         if relative:
             _batch_independent(lambda BB: np.asarray(est.in_hull(BB, relative=relative)), B, out, sv)
+        _whole_number_twin(lambda BB: np.asarray(est.in_hull(BB, relative=relative)), B)
         return out
     from dreye.api.convex import in_hull_from_A
 
@@ -60,6 +72,7 @@ def _call_membership(sv: Sys, B, entry, relative=True):
             out = np.asarray(in_hull_from_A(B, sv.A, **kw))
     check(bool(first[0]) == bool(out[0]), "membership:second-query-differs", "the same target gets another answer when the same argument arrays are used again")
     _batch_independent(lambda BB: np.asarray(in_hull_from_A(BB, sv.A, **sv.kwargs())), B, out, sv)
+    _whole_number_twin(lambda BB: np.asarray(in_hull_from_A(BB, sv.A, **sv.kwargs())), B)
     return out
 
 
